@@ -14,7 +14,7 @@ MC_TxIns   == [t \in MC_TxIds |->
 MC_TxOuts  == [t \in MC_TxIds |->
                  CASE t = "n1"  -> <<S("w1", 0, "nbind", 25, 0), S("w1", 1, "std", 24, 0)>>
                    [] t = "n1w" -> <<S("w1", 1, "std", 24, 0)>>
-                   [] t = "n2"  -> <<S("w2", 1, "nbind", 40, 0), S("w2", 0, "std", 19, 0)>>
+                   [] t = "n2"  -> <<S("w2", 0, "std", 19, 0), S("w2", 1, "nbind", 40, 0)>>
                    [] t = "n2w" -> <<S("w2", 0, "std", 58, 0)>>
                    [] t = "s3"  -> <<S("w1", 2, "stk", 23, 1)>>]
 \* the withdrawals n1w / n2w are never mined: the pinned mass-core AddrIndexer cannot attach a block
